@@ -103,7 +103,7 @@ pub proof fn lemma_forward_step(ms: Seq<DltMessage>, sel: Seq<bool>, outs: Seq<D
 //@|    let ghost mut sel: Seq<bool> = Seq::empty();
 //@|    let ghost mut outs: Seq<DltMessage> = Seq::empty();
 //@|    proof { assert(outflow.log() =~= log0 + outs); }
-//@   loop 1
+//@   loop 1 `loop`
 //@|    invariant
 //@|        0 <= k <= ms0.len(), inflow.rem() == ms0.skip(k), log0 == old(outflow).log(),
 //@|        outflow.log() == log0 + outs, // O:driver.inv.log
@@ -118,7 +118,7 @@ pub proof fn lemma_forward_step(ms: Seq<DltMessage>, sel: Seq<bool>, outs: Seq<D
 //@|        assert(m_in == ms0[k]);
 //@|        assert(ms0.skip(k).skip(1) =~= ms0.skip(k + 1));
 //@|    }
-//@   loop 2
+//@   loop 2 `plugins_active`
 //@|    invariant
 //@|        vx_i <= plugins_active@.len(),
 //@|        core_same(m_in, msg), // O:driver.inv.core
